@@ -1,6 +1,7 @@
 package rules
 
 import (
+	"go/types"
 	"go/token"
 	"sort"
 	"strings"
@@ -35,6 +36,16 @@ func astFieldReads(fns map[*ssa.Function]bool, astPath string) map[string]bool {
 					}
 					if onlyStore {
 						continue
+					}
+					// for a field that holds a node, a list or an optional scalar, asking whether it is there (nil / len
+					// tests) is not reading it: the serialiser has to use the content somewhere
+					if st := core.StructOf(core.NamedOf(v.X.Type())); st != nil {
+						switch st.Field(v.Field).Type().Underlying().(type) {
+						case *types.Pointer, *types.Interface, *types.Slice, *types.Map:
+							if !contentRead(v) {
+								continue
+							}
+						}
 					}
 					x, idx = v.X, v.Field
 				case *ssa.Field:
